@@ -8,40 +8,37 @@ from vlib import Check, VERIF, REPO
 
 META = {
     "engine": "E1+E2+E3+E4",
-    "text": "Executable Coq model of ThreadPoolExecutor (external submitters, workers: own local queue -> steal -> "
-            "blocking global pop, balance thread, stop: join balancer / one STOP marker per worker / join workers, "
-            "enqueue_task: owner-only local push below capacity) over an abstract ticket queue (exactly-once delivery "
-            "in ticket order, bounded capacity with blocking push - what C01 establishes).  Proved in Coq for every "
-            "worker count, capacity, stealing/balancing setting, client program, task graph and schedule: a task only "
-            "starts on a worker thread (inside the executor's RunnerScope); when stop() has returned every worker has "
-            "left keep_execute and the balance thread has exited; STOP markers are pushed only by a thread that called "
-            "stop() and only after the balance thread exited; no marker is in the global queue before stop() is called "
-            "nor while the balance thread is alive; local queues and the balance thread hold FUNCTION tasks only.  The "
-            "two headline statements (a task starts at most once and only if accepted; at stop() return everything "
-            "accepted before stop() or pushed to a local queue has finished) are STATED at full strength in "
-            "Properties_C07.v but NOT proved (partial, see note); they are checked by exhaustive exploration of the "
-            "extracted model on small programs and by monitors on the real code.  Every decision expression of "
-            "executor.cpp (local-capacity test, marker loop bound and its position after the balancer join, task-type "
-            "switch, _running tests, reserve sizes, execute()'s failure test, BasicExecutor::invoke's refusal) and the "
-            "memory orders of start/stop/keep_balance/new-thread executor are regenerated from the source on every "
-            "run and pinned by lemmas.  Tie: the real ThreadPoolExecutor (executor.cpp compiled through the atomic "
-            "shim, worker/balance threads created by start() under the deterministic scheduler) runs the same "
-            "programs; for small programs every run order it produces must be one the exhaustively explored model "
-            "admits; monitors check the property text directly on every run (run counters, is_running_in() inside "
-            "tasks, drain and future readiness at stop() return, refused submissions, stop() never returning), also "
-            "for InplaceExecutor, AlwaysUseNewThreadExecutor and an executor whose invoke refuses.",
-    "note": "PARTIAL PROOF: c07_run_once_statement and c07_stop_drains_statement are definitions, not theorems; "
-            "proved are c07_run_once_partial (runs only on a worker thread) and c07_stop_drains_partial (order of "
-            "events in stop(), markers behind everything accepted earlier / moved by the balancer, workers exited at "
-            "return).  Missing: global-queue ticket invariant, empty-local-queue-on-exit invariant, location invariant "
-            "of accepted tasks, token counting for at-most-once.  Liveness (stop() eventually returns) is not a Coq "
-            "theorem: it is checked as absence of deadlock in the exhaustive model exploration of the small programs "
-            "and as DSCHED-STUCK on the real code; it is false by design when a task blocks pushing into a full global "
-            "queue that only its own worker could drain, so generated task graphs that push to the global queue from "
-            "workers get a global capacity that cannot fill.  InplaceExecutor / AlwaysUseNewThreadExecutor / refusing "
-            "executor: monitors only (no model).  The queue is abstract in the model (composition with C01 by its "
-            "statement).  Trusted: Coq kernel; translator; extraction + OCaml explorer; macro shim and dsched "
-            "(sequentially consistent interleavings only).",
+    "text": "Coq theorems over an executable interleaving model of ThreadPoolExecutor (external submitters, workers: own "
+            "local queue -> steal -> blocking global pop, balance thread, stop: join balancer / one STOP marker per worker "
+            "/ join workers, enqueue_task: owner-only local push below capacity) on top of an abstract ticket queue "
+            "(exactly-once delivery in ticket order, bounded capacity with blocking push - what C01 establishes), for "
+            "every worker count, capacity, stealing/balancing setting, client program, task graph and schedule: "
+            "c07_run_once - a task starts at most once, only if its submission was accepted, and only on a worker thread "
+            "(inside the executor's RunnerScope); c07_stop_drains - when stop() has returned every task whose submission "
+            "returned before stop() was called and every task pushed into a local queue has finished (its future is "
+            "ready).  Supporting invariants: global-queue tickets (every pop ticket is served or has a worker waiting "
+            "for exactly it; a worker exits only on a consumed STOP marker), an idle/exited worker has an empty local "
+            "queue, location of accepted tasks (finished / held by a worker or the balancer / local queue / global queue "
+            "ahead of every STOP marker), token counting, stop() sequencing.  Every decision expression of executor.cpp "
+            "(local-capacity test, marker loop bound and its position after the balancer join, task-type switch, "
+            "_running tests, reserve sizes, execute()'s failure test, BasicExecutor::invoke's refusal) and the memory "
+            "orders of start/stop/keep_balance/new-thread executor are regenerated from the source on every run and "
+            "pinned by lemmas.  Tie: the real ThreadPoolExecutor (executor.cpp compiled through the atomic shim, "
+            "worker/balance threads created by start() under the deterministic scheduler, incl. spurious futex returns) "
+            "runs the same programs; for small programs every run order it produces must be one the exhaustively "
+            "explored extracted model admits; monitors check the property text directly on every run (run counters, "
+            "is_running_in() inside tasks, drain and future readiness at stop() return, refused submissions, stop() "
+            "never returning), also for InplaceExecutor, AlwaysUseNewThreadExecutor and an executor whose invoke refuses.",
+    "note": "Liveness (stop() eventually returns) is not a Coq theorem: it is checked as absence of deadlock in the "
+            "exhaustive model exploration of the small programs and as DSCHED-STUCK on the real code; it is false by "
+            "design when a task blocks pushing into a full global queue that only its own worker could drain, so "
+            "generated task graphs that push to the global queue from workers get a global capacity that cannot fill.  "
+            "In the model every submission to the pool is accepted (enqueue_task returns 0, pinned by a lemma); refused "
+            "submissions, InplaceExecutor and AlwaysUseNewThreadExecutor are covered by monitors only.  Usage rules in "
+            "the theorems: at least one worker (drain), every task id submitted at one place only (run-once), one "
+            "start()/stop() cycle.  The queue is abstract in the model (composition with C01 by its statement).  "
+            "Trusted: Coq kernel; translator; extraction + OCaml explorer; macro shim and dsched (sequentially "
+            "consistent interleavings only).",
 }
 
 
@@ -222,7 +219,12 @@ def main(argv):
                 ths.append(["J", "X"] if rng.chance(1, 2) else ["X"])
             progs.append(("p%d" % len(progs), kind, "0 0 0 0 0", fmt_bodies(bodies), fmt_threads(ths), False))
         nsched = 14 if not thorough else 60
-        scheds = [(rng.below(1 << 31), [0, 3, 1, 0, 3][i % 5]) for i in range(nsched)]
+        scheds = []
+        for i in range(nsched):
+            strat = [0, 3, 1, 0, 3][i % 5]
+            if strat != 1 and i % 3 == 1:
+                strat += 10          # futex_wait may return spuriously (EINTR / 0 without a wake)
+            scheds.append((rng.below(1 << 31), strat))
     lines, meta = [], {}
     for pid, kind, params, bodies, ths, small in progs:
         for si, (seed, strat) in enumerate(scheds if kind in "PT" else scheds[:3]):
@@ -288,7 +290,7 @@ def main(argv):
                        "the local queue, stop()/destructor after the submitters; class B = random task graphs of depth <= 3, "
                        "local capacity 0-3, stop() racing with submitters and running tasks, wakeup_one_worker; workers 1-3, "
                        "stealing on/off, balance interval unset/1-3us; strategies uniform random, round-robin with random "
-                       "pre-emptions, PCT; distinct non-trivial = distinct (program, observed run order) pairs; small "
+                       "pre-emptions, PCT, about a third of the non-PCT schedules with spurious futex_wait returns; distinct non-trivial = distinct (program, observed run order) pairs; small "
                        "programs (<= 4 tasks, <= 2 workers) are explored exhaustively in the extracted model and every "
                        "implementation run order must be in the model's outcome set (skipped when the exploration hits the "
                        "state bound)")
@@ -299,9 +301,6 @@ def main(argv):
         "harness/shim (verif_atomic.h macro shim, dsched.cpp: futex/clock/usleep/pthread interposition)",
         "abstract queue: ticket FIFO with exactly-once delivery and blocking bounded push (property C01)",
         "modelled not verified: std::thread, MoveOnlyFunction, Future/Promise (property C08), EnumerableThreadLocal"]
-    chk.notes["level_note"] = ("partial: run-once and stop-drains are stated in Properties_C07.v but only their "
-                               "sequencing / placement parts are proved; the rest rests on exhaustive model exploration "
-                               "of small programs and on the monitors")
     chk.assumptions = ["sequentially consistent interleavings at queue-operation granularity",
                        "one start()/stop() cycle, stop() called by one thread, at least one worker",
                        "task ids are submitted at most once (each closure is a distinct task)"]
